@@ -534,8 +534,9 @@ class IkeSa(object):
 
     def _generate_ike_sa_negotiation_request(self):
         # create the Payload SA
-        self.chosen_proposal = self.configuration.proposal
-        self.chosen_proposal.spi = self.my_spi
+        # use a copy: the Proposal of the configuration is shared with every other IKE_SA of this connection
+        self.chosen_proposal = Proposal(self.configuration.proposal.num, self.configuration.proposal.protocol_id,
+                                        self.my_spi, self.configuration.proposal.transforms)
         payload_sa = PayloadSA([self.chosen_proposal])
 
         # generate payload NONCE
@@ -611,8 +612,9 @@ class IkeSa(object):
         result.append(PayloadTSr(child_sa.tsr))
 
         # generate Payload SA
-        child_sa.proposal.spi = child_sa.inbound_spi
-        result.append(PayloadSA([child_sa.proposal]))
+        # use a copy: the Proposal of the configuration is shared with every other IKE_SA of this connection
+        result.append(PayloadSA([Proposal(child_sa.proposal.num, child_sa.proposal.protocol_id, child_sa.inbound_spi,
+                                          child_sa.proposal.transforms)]))
 
         # generate Payload KE (if required)
         try:
